@@ -95,6 +95,33 @@ pub fn removed(a: ([u8; N], usize), i: usize) -> ([u8; N], usize) {
     o[n - 1] = 255;
     (o, n - 1)
 }
+/// addresses of the linked entries, LRU -> MRU (the ghost `nodes()` of the Verus model: A-NODE)
+pub fn addrs<K, V, S>(c: &LruCache<K, V, S>) -> ([usize; N], usize) {
+    let mut out = [0usize; N];
+    let mut n = 0usize;
+    let mut p = c.seal.get().prev;
+    while p != c.seal {
+        assert!(n < N, "list longer than the bound: cycle not closed by the seal");
+        out[n] = p.get() as *const Entry<K, V> as usize;
+        n += 1;
+        p = p.get().prev;
+    }
+    (out, n)
+}
+/// element-wise comparison (a derived == on [usize; N] is a 32-byte memcmp: too long for the unwind bound)
+pub fn same_addrs(a: ([usize; N], usize), b: ([usize; N], usize)) -> bool {
+    if a.1 != b.1 { return false; }
+    let mut j = 0;
+    while j < a.1 { if a.0[j] != b.0[j] { return false; } j += 1; }
+    true
+}
+pub fn removed_addr(a: ([usize; N], usize), i: usize) -> ([usize; N], usize) {
+    let (mut o, n) = a;
+    let mut j = i;
+    while j + 1 < n { o[j] = o[j + 1]; j += 1; }
+    o[n - 1] = 0;
+    (o, n - 1)
+}
 pub fn index_in(a: ([u8; N], usize), k: u8) -> Option<usize> {
     let mut j = 0;
     while j < a.1 { if a.0[j] == k { return Some(j); } j += 1; }
